@@ -220,7 +220,7 @@ def run(chk):
             # every second sphere is a full ball (inner radius 0: all nodes of the innermost layer sit at the centre)
             g = {"x_min": 0.0, "x_max": 0.0, "y_min": 0.0, "y_max": 0.0, "z_min": 4371000.0 if (gi // 7) % 2 == 0 else 0.0, "z_max": 6371000.0}
             gtype = "sphere"
-            nx = ny = 2
+            nx = ny = 2 + (gi // 7) % 3
             nz = 2
         lines = ["grid_type = %s" % gtype, "dim = %d" % dim, "compositions = %d" % comps, "vtu_output_format = ASCII"]
         lines += ["%s = %r" % (k, v) for k, v in g.items()]
@@ -288,6 +288,27 @@ def run(chk):
                     dep = outer - math.sqrt(px * px + pz * pz)
                     pos.append(((px, pz), 0.0 if abs(dep) < 1e-8 else dep))
             r["nt"] = nt
+        elif kind == "sphere":
+            # the Gallina model of the sphere mesh (SphereGrid.v): nodes with their Depth, connectivity, merge diagnostics
+            lv, inner, outer = "(nat_of_int %d)" % nx, common.ml(g["z_min"]), common.ml(g["z_max"])
+            body = "let () = out_sphere_nodes (sphere_nodes num %s (nat_of_int %d) %s %s)\n" % (lv, nz, inner, outer)
+            body += "let () = out_nat_lists (sphere_cells num %s (nat_of_int %d) %s)\n" % (lv, nz, outer)
+            body += "let () = out_bool (targets_ok (sphere_dups num %s %s))\n" % (lv, outer)
+            mo = common.run_model(body, tag="c18s")
+            nodes = common.parse_vec(mo[0])
+            pos = [(tuple(nodes[4 * i:4 * i + 3]), nodes[4 * i + 3]) for i in range(len(nodes) // 4)]
+            r["model_cells"] = [int(x) for x in mo[1].split()[1:]]
+            r["targets_ok"] = mo[2].strip() == "ok 1"
+            # the same grid once more in a binary write mode: the exact doubles of every node
+            d2 = os.path.join(base, "g%d_raw" % gi)
+            os.makedirs(d2)
+            json.dump(wj, open(os.path.join(d2, "w.wb"), "w"))
+            open(os.path.join(d2, "g.grid"), "w").write("\n".join(lines).replace("vtu_output_format = ASCII", "vtu_output_format = RawBinary") + "\n")
+            rc2, o2, e2 = common.sh([exe, "-j", str(j), "w.wb", "g.grid"], cwd=d2, timeout=900)
+            try:
+                r["exact"] = parse_vtu_binary(os.path.join(d2, "w.vtu")) if rc2 == 0 else None
+            except Exception:
+                r["exact"] = None
         r["pos"] = pos
         if pos:
             r["queries"] = [(cs.p2 if dim == 2 else cs.p3)(slot, p, dep, ps) for p, dep in pos]
@@ -405,7 +426,30 @@ def run(chk):
                 if got != [cxx_g(v) for v in ans]:
                     viol.append(("values stored at node %d differ from the library's answer at that node: %s vs %s" % (i, got, [cxx_g(v) for v in ans]), rep))
                     break
-        else:
+        if r["kind"] == "sphere" and "model_cells" in r:
+            chk.corr["cases"] += 1
+            ex = r.get("exact")
+            why = None
+            if r["model_cells"] != full["connectivity"]:
+                why = "connectivity differs from the model's (first cells: %s vs %s)" % (full["connectivity"][:16], r["model_cells"][:16])
+            elif not r["targets_ok"]:
+                why = "the model merges a node into a node that is itself merged away (its compact entry is never written)"
+            elif ex is None:
+                why = "the RawBinary file of the same grid could not be read"
+            else:
+                flat = [c for p_, _d in r["pos"] for c in p_]
+                if len(flat) != len(ex["points"]) or any(a.hex() != float(b).hex() for a, b in zip(flat, ex["points"])):
+                    k_ = next((i for i, (a, b) in enumerate(zip(flat, ex["points"])) if a.hex() != float(b).hex()), -1)
+                    why = "node coordinates differ from the model's binary64 values (coordinate %d: %r vs %r)" % (k_, ex["points"][k_] if k_ >= 0 else None, flat[k_] if k_ >= 0 else None)
+                elif [float(x).hex() for x in ex["data"]["Depth"]] != [d_.hex() for _p, d_ in r["pos"]]:
+                    why = "Depth differs from the model's binary64 values"
+            if why is None:
+                chk.corr["agree"] += 1
+                chk.corr["bit_exact"] += 1
+            else:
+                chk.corr["disagreements"] += 1
+                viol.append(("__corr__", dict(rep, sphere_model=why)))
+        if r["kind"] == "sphere" or not r["pos"]:
             ro, ri = r["g"]["z_max"], r["g"]["z_min"]
             shells = {}
             for p, dep in zip(pts, depth):
